@@ -8,8 +8,8 @@
     chunk datas (the head possibly partly delivered); the remaining payload is [concat ds].  Every
     window offered to the decoder is [take k (R ++ rest)]: the first k bytes (any k: any arrival cut)
     of the remaining coding followed by arbitrary bytes [rest] of a next message. *)
-From Hoot Require Import Base Chunk Body.
-From Hoot.proofs Require Import BytesLemmas C07_spec C07_sizeline C07_sim C07_proofs.
+From Hoot Require Import Base Chunk Body Call.
+From Hoot.proofs Require Import BytesLemmas C07_spec C07_sizeline C07_sim C07_proofs C07_call.
 Open Scope N_scope.
 
 (** The one fact about arrival cuts everything rests on: on any window of  line CRLF more  with a
@@ -54,6 +54,19 @@ Theorem c07_step_reader : forall st src cap stop st' i out,
   reader_read (RChunked st) src cap stop = Ok (RChunked st', i, out).
 Proof. exact reader_read_chunked. Qed.
 
+(** The same read through [Call<RecvBody>::read] (stop flag taken from the call; an ended reader is
+    short-circuited), including the boundary clause. *)
+Theorem c07_step_call : forall c st R ds rest k cap,
+  c_reader c = Some (RChunked st) -> rel st R ds ->
+  exists c' st' C R' out ds',
+    call_read c (take k (R ++ rest)) cap = Ok (c', len C, out) /\
+    c_reader c' = Some (RChunked st') /\ c_stop c' = c_stop c /\
+    R = C ++ R' /\ len C <= k /\
+    concat ds = out ++ concat ds' /\ len out <= cap /\
+    rel st' R' ds' /\ st' <> DTrailer /\
+    (c_stop c = true -> out = [] \/ exists p tl d2, ds = p :: tl /\ p = out ++ d2).
+Proof. exact step_call. Qed.
+
 (** A related state is ended exactly when no coding byte remains. *)
 Theorem c07_ended_iff : forall st R ds, rel st R ds -> (dech_is_ended st = true <-> R = []).
 Proof. exact rel_ended_iff. Qed.
@@ -89,6 +102,19 @@ Theorem c07_boundary : forall c rest sched k cap t,
     cstep (enc c ++ rest) t (k, cap, true) = Ok t' /\ t_out t' = t_out t ++ out /\
     (out = [] \/ exists ck d1 d2, In ck (cd_chunks c) /\ ck_data ck = d1 ++ out ++ d2).
 Proof. exact run_boundary. Qed.
+
+(** The positional form: the output continues exactly the chunk in which delivery stands ([pre] = the
+    chunk datas completely delivered so far, [d1] = the delivered part of the current chunk) and does
+    not go beyond its end. *)
+Theorem c07_boundary_pos : forall c rest sched k cap t,
+  valid c -> line_limit_F17 c ->
+  crun (enc c ++ rest) cstart sched = Ok t ->
+  exists t' out,
+    cstep (enc c ++ rest) t (k, cap, true) = Ok t' /\ t_out t' = t_out t ++ out /\
+    (out = [] \/ exists pre d1 d2 post,
+                   map ck_data (cd_chunks c) = pre ++ (d1 ++ out ++ d2) :: post /\
+                   t_out t = concat pre ++ d1).
+Proof. exact run_boundary_pos. Qed.
 
 (** Liveness, so that safety is not vacuous: with the remaining coding visible and room for one
     byte, a read in a non-ended state consumes at least one byte ... *)
@@ -189,10 +215,12 @@ Print Assumptions c07_size_line.
 Print Assumptions c07_start.
 Print Assumptions c07_step.
 Print Assumptions c07_step_reader.
+Print Assumptions c07_step_call.
 Print Assumptions c07_ended_iff.
 Print Assumptions c07_run.
 Print Assumptions c07_boundary_step.
 Print Assumptions c07_boundary.
+Print Assumptions c07_boundary_pos.
 Print Assumptions c07_progress.
 Print Assumptions c07_reaches_end.
 Print Assumptions c07_known_refuted.
